@@ -544,6 +544,12 @@ where
     fn card_command(&mut self, command: u8, arg: u32) -> Result<u8, Error> {
         if command != CMD0 && command != CMD12 {
             self.wait_not_busy(Delay::new_command())?;
+        } else {
+            // These two are sent whatever the card is doing, but not in the
+            // byte slot that directly follows its previous response: the card
+            // is given at least one byte time (N_RC), as the wait above gives
+            // it before every other command.
+            let _ = self.read_byte()?;
         }
 
         let mut buf = [
